@@ -130,8 +130,10 @@ func applyOp(inst *graph.Instance, op Op) (string, outcome) {
 		if err := json.Unmarshal([]byte(op.V), &v); err != nil {
 			panic(fmt.Errorf("harness: metadata value is not JSON: %q", op.V))
 		}
+		// the model is handed the value as encoding/json prints it back (numbers are float64 by then)
+		val := canonValue(v)
 		o := guard(func() error { inst.SetMetadata(op.S, v); return nil })
-		return fmt.Sprintf("OSetMeta %s %s", hx.CoqString(op.S), mustJSON([]byte(op.V)).Coq()), o
+		return fmt.Sprintf("OSetMeta %s %s", hx.CoqString(op.S), val.Coq()), o
 	case "delmeta":
 		o := guard(func() error { inst.DeleteMetadata(op.S); return nil })
 		return "ODelMeta " + hx.CoqString(op.S), o
